@@ -37,9 +37,13 @@ import (
 // statements
 
 const (
-	cbRead         = iota // SELECT
-	cbWrite               // INSERT of a fresh row
-	cbWriteExplain        // the same INSERT, but the statement carries SqlExplain=true (the flag RORWCount trusts)
+	cbRead       = iota // SELECT
+	cbWrite             // INSERT of a fresh row
+	cbExplain           // EXPLAIN INSERT ..., carrying SqlExplain=true as the SQL processor sets it. sqlite3_stmt_readonly
+	                    // answers for it as for the bare INSERT (not read-only, https://sqlite.org/c3ref/stmt_readonly.html),
+	                    // which is why RORWCount looks at the flag; running it changes nothing
+	cbMislabelled       // the INSERT itself carrying SqlExplain=true: not producible through the HTTP API (a peer could
+	                    // send it); only "changes go through the log" and "refused when served locally" are claimed for it
 	cbNumClasses
 )
 
@@ -57,18 +61,23 @@ func cbStatement(class, pos int) *proto.Statement {
 		return &proto.Statement{Sql: cbSQLRead}
 	case cbWrite:
 		return &proto.Statement{Sql: cbInsertSQL(pos)}
+	case cbExplain:
+		return &proto.Statement{Sql: "EXPLAIN " + cbInsertSQL(pos), SqlExplain: true}
 	}
 	return &proto.Statement{Sql: cbInsertSQL(pos), SqlExplain: true}
 }
 
-// the model's parser
-func cbClassify(q string) (write bool, id int64) {
+// the model's parser: does running the text change data (and which row), is it an EXPLAIN
+func cbClassify(q string) (write bool, id int64, explain bool) {
 	if q == cbSQLRead {
-		return false, 0
+		return false, 0, false
 	}
 	for p := 0; p < 8; p++ {
 		if q == cbInsertSQL(p) {
-			return true, cbRowID(p)
+			return true, cbRowID(p), false
+		}
+		if q == "EXPLAIN "+cbInsertSQL(p) {
+			return false, 0, true
 		}
 	}
 	panic("verif C17b: SQL outside the statement table: " + q)
@@ -110,8 +119,13 @@ func cbSwQueryCtx(s *sql.SwappableDB, ctx context.Context, q *proto.Request, xTi
 		if st.Sql == "" {
 			continue
 		}
-		if w, _ := cbClassify(st.Sql); w {
+		w, _, ex := cbClassify(st.Sql)
+		if w {
 			out = append(out, &proto.QueryRows{Error: sql.ErrQueryWrite.Error()})
+			continue
+		}
+		if ex {
+			out = append(out, &proto.QueryRows{Columns: []string{"addr"}, Types: []string{"integer"}, Values: cbIntRows([]int64{0})}) // the listing
 			continue
 		}
 		out = append(out, &proto.QueryRows{Columns: []string{"id"}, Types: []string{"integer"}, Values: cbIntRows(cbD.rows)})
@@ -138,7 +152,7 @@ func cbSwExecuteCtx(s *sql.SwappableDB, ctx context.Context, q *proto.Request, x
 		if st.Sql == "" {
 			continue
 		}
-		if w, id := cbClassify(st.Sql); w {
+		if w, id, _ := cbClassify(st.Sql); w {
 			out = append(out, cbD.write(id))
 		} else {
 			out = append(out, &proto.ExecuteQueryResponse{Result: &proto.ExecuteQueryResponse_E{E: &proto.ExecuteResult{}}})
@@ -158,8 +172,11 @@ func cbSwRequestCtx(s *sql.SwappableDB, ctx context.Context, q *proto.Request, x
 		if st.Sql == "" {
 			continue
 		}
-		if w, id := cbClassify(st.Sql); w {
+		if w, id, ex := cbClassify(st.Sql); w {
 			out = append(out, cbD.write(id))
+		} else if ex {
+			// not read-only for sqlite3_stmt_readonly: runs on the execute arm, changes nothing
+			out = append(out, &proto.ExecuteQueryResponse{Result: &proto.ExecuteQueryResponse_E{E: &proto.ExecuteResult{}}})
 		} else {
 			out = append(out, &proto.ExecuteQueryResponse{Result: &proto.ExecuteQueryResponse_Q{Q: &proto.QueryRows{Columns: []string{"id"}, Types: []string{"integer"}, Values: cbIntRows(cbD.rows)}}})
 		}
@@ -170,10 +187,11 @@ func cbSwRequest(s *sql.SwappableDB, q *proto.Request, xTime bool) ([]*proto.Exe
 	return cbSwRequestCtx(s, context.Background(), q, xTime)
 }
 
-// sqlite3_stmt_readonly: outside the claim; the model answers "read-only" exactly for the SELECT.
+// sqlite3_stmt_readonly: outside the claim; the model answers "read-only" exactly for the SELECT
+// (an EXPLAIN is classified like the statement it explains).
 func cbSwStmtReadOnly(s *sql.SwappableDB, q string) (bool, error) {
-	w, _ := cbClassify(q)
-	return !w, nil
+	w, _, ex := cbClassify(q)
+	return !w && !ex, nil
 }
 
 // ---------------------------------------------------------------------------------------------
@@ -208,25 +226,35 @@ func cbUnmarshalSub(c *proto.Command, m pb.Message) error {
 	if len(b) != 2 || b[0] != 0xC1 || int(b[1]) >= len(cbC.subs) {
 		return errors.New("verif C17b: not a marshalled sub-command")
 	}
+	// the three request messages share their first fields on the wire (request=1, timings=2, and
+	// level=3, freshness=4 .. for the two read-capable ones): decoding one as another succeeds and
+	// carries the common fields over, exactly as protobuf does
+	src := cbC.subs[b[1]]
+	var lvl proto.ConsistencyLevel
+	var fresh int64
+	var strict bool
+	switch x := src.(type) {
+	case *proto.QueryRequest:
+		lvl, fresh, strict = x.Level, x.Freshness, x.FreshnessStrict
+	case *proto.ExecuteQueryRequest:
+		lvl, fresh, strict = x.Level, x.Freshness, x.FreshnessStrict
+	}
+	timings := false
+	switch x := src.(type) {
+	case *proto.QueryRequest:
+		timings = x.Timings
+	case *proto.ExecuteRequest:
+		timings = x.Timings
+	case *proto.ExecuteQueryRequest:
+		timings = x.Timings
+	}
 	switch dst := m.(type) {
 	case *proto.QueryRequest:
-		src, ok := cbC.subs[b[1]].(*proto.QueryRequest)
-		if !ok {
-			return errors.New("verif C17b: sub-command of another type")
-		}
-		dst.Request, dst.Timings, dst.Level, dst.Freshness, dst.FreshnessStrict = src.Request, src.Timings, src.Level, src.Freshness, src.FreshnessStrict
+		dst.Request, dst.Timings, dst.Level, dst.Freshness, dst.FreshnessStrict = src.GetRequest(), timings, lvl, fresh, strict
 	case *proto.ExecuteRequest:
-		src, ok := cbC.subs[b[1]].(*proto.ExecuteRequest)
-		if !ok {
-			return errors.New("verif C17b: sub-command of another type")
-		}
-		dst.Request, dst.Timings = src.Request, src.Timings
+		dst.Request, dst.Timings = src.GetRequest(), timings
 	case *proto.ExecuteQueryRequest:
-		src, ok := cbC.subs[b[1]].(*proto.ExecuteQueryRequest)
-		if !ok {
-			return errors.New("verif C17b: sub-command of another type")
-		}
-		dst.Request, dst.Timings, dst.Level, dst.Freshness, dst.FreshnessStrict = src.Request, src.Timings, src.Level, src.Freshness, src.FreshnessStrict
+		dst.Request, dst.Timings, dst.Level, dst.Freshness, dst.FreshnessStrict = src.GetRequest(), timings, lvl, fresh, strict
 	default:
 		return errors.New("verif C17b: unexpected sub-command target")
 	}
@@ -495,12 +523,12 @@ func (sc *cbScenario) checkOnlyThroughLog() (changed bool) {
 	return changed
 }
 
-var cbAllClasses = []int{cbRead, cbWrite, cbWriteExplain}
+var cbAllClasses = []int{cbRead, cbWrite, cbExplain, cbMislabelled}
 
 // VerifC17bQuery: the query endpoint, every level, any statements (also data-changing ones).
 func VerifC17bQuery() {
 	verifPanicsAreViolations()
-	maxN := 2
+	maxN := 1 // (*Store).Query does not look at the statements: one is enough for the quick tier
 	if verifTier() == 1 {
 		maxN = 3
 	}
@@ -514,16 +542,16 @@ func VerifC17bQuery() {
 		verifReach("query-answered")
 		verifAssert("C17-one-answer-per-statement", len(rows) == len(sc.kinds))
 		for i, c := range sc.kinds {
-			if c != cbRead {
+			if c == cbWrite || c == cbMislabelled {
 				verifAssert("C17-write-through-query-endpoint-is-refused", rows[i] != nil && rows[i].Error != "")
 				verifReach("write-through-query-endpoint-refused")
+				if sc.w.applied > 0 {
+					verifReach("write-through-query-endpoint-through-the-log-refused")
+				}
 			}
 		}
 		if sc.w.applied > 0 {
 			verifReach("query-answered-through-the-log")
-			if !sc.has(cbRead) {
-				verifReach("write-through-query-endpoint-through-the-log-refused")
-			}
 		} else {
 			verifReach("query-answered-locally")
 		}
@@ -542,8 +570,20 @@ func VerifC17bRequest() {
 	eqr := &proto.ExecuteQueryRequest{Request: sc.request(), Level: sc.level}
 	resp, _, _, err := sc.s.Request(context.Background(), eqr)
 	changed := sc.checkOnlyThroughLog()
-	readOnlyForTheStore := !sc.has(cbWrite) // every statement is a SELECT or flagged as EXPLAIN
-	if readOnlyForTheStore {
+	// every statement is a SELECT or an EXPLAIN: the unified request treats all of them as read-only
+	readOnlyRequest := !sc.has(cbWrite) && !sc.has(cbMislabelled)
+	if sc.has(cbMislabelled) && !sc.has(cbWrite) && err == nil && sc.w.applies == 0 {
+		// the flag was wrong and the store served the request locally: the read path must refuse the change
+		// (that the database did not change without the log was already asserted above)
+		for i, c := range sc.kinds {
+			if c == cbMislabelled {
+				q := resp[i].GetQ()
+				verifAssert("C17-write-through-read-arm-is-refused", q != nil && q.Error != "")
+				verifReach("mislabelled-write-refused-locally")
+			}
+		}
+	}
+	if readOnlyRequest {
 		// "no statement a unified request treats as read-only, at any consistency level, changes the database"
 		verifAssert("C17-read-only-unified-request-never-changes-the-database", !changed)
 		if sc.level == proto.ConsistencyLevel_NONE || sc.level == proto.ConsistencyLevel_WEAK || sc.level == proto.ConsistencyLevel_AUTO {
@@ -555,13 +595,8 @@ func VerifC17bRequest() {
 			verifAssert("C17-one-answer-per-statement", len(resp) == len(sc.kinds))
 			if sc.w.applied == 0 {
 				verifReach("read-only-request-answered-locally")
-				for i, c := range sc.kinds {
-					if c == cbWriteExplain {
-						// the flag was wrong: the read path must still refuse the change
-						q := resp[i].GetQ()
-						verifAssert("C17-write-through-read-arm-is-refused", q != nil && q.Error != "")
-						verifReach("mislabelled-write-refused-locally")
-					}
+				if sc.has(cbExplain) {
+					verifReach("explain-answered-locally")
 				}
 			} else {
 				verifReach("read-only-request-answered-through-the-log")
